@@ -104,38 +104,40 @@ func (s *Session) ScanFieldModes(prop string) *FuncResult {
 				switch i := in.(type) {
 				case *ssa.Store:
 					f, fa := fieldOfAddr(i.Addr)
-					m := s.CS.Fields[f]
-					if m == nil || !hasProp(propsOf(m), prop) {
-						continue
-					}
-					if freshBase(fa) {
-						continue
-					}
-					switch m.Mode {
-					case "writers":
-						ok := false
-						for _, w := range argsOf(m) {
-							if w == fname {
-								ok = true
-							}
+					for _, m := range s.CS.FieldModes[f] {
+						if m == nil || !hasProp(propsOf(m), prop) {
+							continue
 						}
-						add(fmt.Sprintf("field-modes/writers[%s]@%s", f, fname), ok, i.Pos(), "store to "+f+" in "+fname+" ("+s.P.PosStr(i.Pos())+")", propsOf(m))
-					case "immutable":
-						add(fmt.Sprintf("field-modes/immutable[%s]@%s", f, fname), false, i.Pos(), "store to immutable field "+f+" in "+fname+" ("+s.P.PosStr(i.Pos())+")", propsOf(m))
-					case "atomic":
-						add(fmt.Sprintf("field-modes/atomic[%s]@%s", f, fname), false, i.Pos(), "plain store to atomic field "+f+" in "+fname, propsOf(m))
+						if freshBase(fa) {
+							continue
+						}
+						switch m.Mode {
+						case "writers":
+							ok := false
+							for _, w := range argsOf(m) {
+								if w == fname {
+									ok = true
+								}
+							}
+							add(fmt.Sprintf("field-modes/writers[%s]@%s", f, fname), ok, i.Pos(), "store to "+f+" in "+fname+" ("+s.P.PosStr(i.Pos())+")", propsOf(m))
+						case "immutable":
+							add(fmt.Sprintf("field-modes/immutable[%s]@%s", f, fname), false, i.Pos(), "store to immutable field "+f+" in "+fname+" ("+s.P.PosStr(i.Pos())+")", propsOf(m))
+						case "atomic":
+							add(fmt.Sprintf("field-modes/atomic[%s]@%s", f, fname), false, i.Pos(), "plain store to atomic field "+f+" in "+fname, propsOf(m))
+						}
 					}
 				case *ssa.UnOp:
 					if i.Op != token.MUL {
 						continue
 					}
 					f, fa := fieldOfAddr(i.X)
-					m := s.CS.Fields[f]
-					if m == nil || !hasProp(propsOf(m), prop) || freshBase(fa) {
-						continue
-					}
-					if m.Mode == "atomic" {
-						add(fmt.Sprintf("field-modes/atomic[%s]@%s", f, fname), false, i.Pos(), "plain load of atomic field "+f+" in "+fname, propsOf(m))
+					for _, m := range s.CS.FieldModes[f] {
+						if m == nil || !hasProp(propsOf(m), prop) || freshBase(fa) {
+							continue
+						}
+						if m.Mode == "atomic" {
+							add(fmt.Sprintf("field-modes/atomic[%s]@%s", f, fname), false, i.Pos(), "plain load of atomic field "+f+" in "+fname, propsOf(m))
+						}
 					}
 				case *ssa.Send:
 					f := fieldOfLoaded(i.Chan)
@@ -156,14 +158,15 @@ func (s *Session) ScanFieldModes(prop string) *FuncResult {
 		}
 	}
 	// one positive obligation per declared field so that the scan is never vacuous
-	for _, name := range sortedKeys(s.CS.Fields) {
-		m := s.CS.Fields[name]
-		if !hasProp(propsOf(m), prop) {
-			continue
-		}
-		switch m.Mode {
-		case "writers", "immutable", "atomic", "closeonly":
-			add(fmt.Sprintf("field-modes/%s[%s]/scan-complete", m.Mode, name), true, token.NoPos, fmt.Sprintf("%d functions scanned", len(s.P.AllFns)), propsOf(m))
+	for _, name := range sortedKeys(s.CS.FieldModes) {
+		for _, m := range s.CS.FieldModes[name] {
+			if !hasProp(propsOf(m), prop) {
+				continue
+			}
+			switch m.Mode {
+			case "writers", "immutable", "atomic", "closeonly":
+				add(fmt.Sprintf("field-modes/%s[%s]/scan-complete", m.Mode, name), true, token.NoPos, fmt.Sprintf("%d functions scanned", len(s.P.AllFns)), propsOf(m))
+			}
 		}
 	}
 	return res
